@@ -83,7 +83,7 @@ def r2(ctx):
     cf = ctx.fn(BINCOUNTS, CF)
     unpack = [s for s in cf.body if isinstance(s, ast.Assign) and isinstance(s.targets[0], ast.Tuple) and src(s.value) == cf.args.args[0].arg]
     ok = False
-    if len(ys) == 1 and len(unpack) == 1 and len(ys[0].value.elts) == len(unpack[0].targets[0].elts):
+    if len(ys) == 1 and len(unpack) == 1 and (len(ys[0].value.elts) == len(unpack[0].targets[0].elts) or any(isinstance(e_, ast.Starred) for e_ in ys[0].value.elts)):
         params = {a.arg for a in gc.args.args}
         # roles of the produced elements: a parameter of generate_commands (same name on the consuming side), the k-th field of the job
         # tuple (contig, start, end), or the loop variable over the input files (the consumer's alignments_path)
@@ -99,9 +99,26 @@ def r2(ctx):
             elif isinstance(l_.target, ast.Name):
                 file_vars.add(l_.target.id)
         ok = True
-        for e, u in zip(ys[0].value.elts, unpack[0].targets[0].elts):
-            en, un = src(e), src(u)
-            if en in job_fields:
+        # `*job` of the un-split job tuple stands for its three fields
+        job_whole = set()
+        for l_ in [x for x in walk_no_nested(gc) if isinstance(x, ast.For) and 'generate_jobs' in src(x.iter)]:
+            tgt = l_.target
+            if isinstance(tgt, ast.Tuple) and len(tgt.elts) == 2 and isinstance(tgt.elts[1], ast.Name):
+                tgt = tgt.elts[1]
+            if isinstance(tgt, ast.Name):
+                job_whole.add(tgt.id)
+        produced = []
+        for e in ys[0].value.elts:
+            if isinstance(e, ast.Starred) and isinstance(e.value, ast.Name) and e.value.id in job_whole:
+                produced.extend(['<contig>', '<start>', '<end>'])
+            else:
+                produced.append(src(e))
+        ok = len(produced) == len(unpack[0].targets[0].elts)
+        for en, u in zip(produced, unpack[0].targets[0].elts):
+            un = src(u)
+            if en in ('<contig>', '<start>', '<end>'):
+                ok = ok and en[1:-1] == un
+            elif en in job_fields:
                 ok = ok and job_fields[en] == un
             elif en in file_vars:
                 ok = ok and un == 'alignments_path'
